@@ -4,30 +4,137 @@ ENGINES = [
     {
         "name": "kani-cbmc",
         "path": "/verif/kani/core",
-        "serves_properties": ["C16"],
+        "serves_properties": ["C01", "C05", "C08", "C13", "C15", "C16", "C17", "C18", "C20"],
         "kind_free_text": "Kani 0.68 proof harnesses (kani::any inputs, kani::unwind bounds, unwinding assertions on) over the "
-        "real shuttle crates compiled with feature verif-hooks; decided by CBMC 6.11 + CaDiCaL",
+        "real shuttle crates compiled with feature verif-hooks; decided by CBMC 6.11 + CaDiCaL. The same harnesses build "
+        "natively against a stand-in for the kani crate (src/shim.rs, src/bin/native.rs) for harness validation and for "
+        "replaying counterexamples against the real code before a violation is reported.",
     }
 ]
 
 NOTES = (
     "Every check copies /repo's working tree to /var/tmp/shuttle-verif/<id>/repo, builds the harness crate against it, runs one "
-    "CBMC process per harness instance (memory and wall caps), requires every kani::cover! witness to be satisfied, replays any "
-    "counterexample natively (Kani concrete playback, dev and release) and only then prints VIOLATION. Exit 2 = inconclusive "
-    "(timeout, out of memory, vacuous harness, non-replaying counterexample), never reported as success. See DESIGN.md."
+    "CBMC process per harness instance (memory and wall caps), requires the kani::cover! reachability witnesses to be satisfied, "
+    "extracts any counterexample with Kani's concrete playback, replays it natively against the real code and only then prints "
+    "VIOLATION. Exit 2 = inconclusive (timeout, out of memory, vacuous harness, non-replaying counterexample), never reported "
+    "as success. Properties whose code only runs inside a Shuttle execution (ExecutionState + primitives) are not applicable: "
+    "the measured reasons are in DESIGN.md 2.1 and in each not_applicable entry."
 )
 
+_K = "bounded model checking of the compiled real code (Kani/CBMC, SAT): "
+
 CLAIMS = {
+    "C01": {
+        "text": "Solver verdict for every recorded schedule of 3 steps over two tasks and random markers: the real ReplayScheduler "
+        "returns exactly the recorded task at every decision and serves exactly the seeded data stream at every random marker, "
+        "runs exactly one execution and reports the recorded seed; together with C16 (string form) and C10-style reseeding of "
+        "RandomDataSource this is the replay side of the property. The recording side and whole-program record->replay equality "
+        "are not covered (engine-level harnesses exceed the solver).",
+        "note": "K-pure harness over ReplayScheduler/RandomDataSource with coroutine-less stub tasks; schedule length 3, two tasks, "
+        "both always offered; the refusal path (recorded task not runnable) and the nondeterminism checker are outside.",
+        "technique": _K + "all 27 three-step schedules in one query",
+    },
+    "C05": {
+        "text": "Solver verdict over every sequence of 4 (quick) / 6 (thorough) park / unpark / spurious wake-up / block operations "
+        "on the real Task state machine: the unpark token is consumed by park, does not accumulate, is not consumed by a "
+        "spurious wake-up, an unpark releases a parked task and never a task blocked on something else. Condvar, Barrier and "
+        "Once are not covered.",
+        "note": "only the park/unpark clause of the property; Task::park/unpark driven directly (no execution, no scheduling points).",
+        "technique": _K + "symbolic operation sequences against a token model",
+    },
+    "C08": {
+        "text": "Solver verdict for the transparent-wrapper clause: MetricsScheduler forwards task list, current, is_yielding, "
+        "random draws and new_execution unchanged and returns the inner scheduler's answers, for all argument values in the "
+        "bound. The runtime side of the contract is not covered (engine-level harness exceeds the solver).",
+        "note": "only the MetricsScheduler wrapper; annotation / portfolio / nondeterminism-check wrappers and "
+        "ExecutionState::schedule are outside.",
+        "technique": _K + "symbolic arguments and inner answers through the wrapper",
+    },
+    "C13": {
+        "text": "Solver verdict for the iteration-budget clause on the round-robin scheduler (budgets 0..=3: exactly budget executions, "
+        "then None forever) and the replay scheduler (exactly one). Step-bound enforcement inside the runtime is not covered.",
+        "note": "random / PCT / DFS budgets are outside (env-var reads, unbounded rejection sampling in rand); "
+        "ExecutionState::schedule's step-bound test is outside (engine-level harness exceeds the solver).",
+        "technique": _K + "symbolic budget, unrolled call sequence",
+    },
+    "C15": {
+        "text": "Solver verdict over all u32 entries for clocks of the stated lengths: partial_cmp is the product order with the "
+        "length rule and is antisymmetric, update is the pointwise maximum with zero extension and an upper bound of both "
+        "operands, <= is transitive, the join is the least upper bound, increment advances exactly the own entry, extend "
+        "zero-fills. The happens-before edges added by the primitives are not covered.",
+        "note": "lattice operations only (feature vector-clocks on); clock lengths <= 3 quick / 4 thorough.",
+        "technique": _K + "all entry values for fixed clock lengths",
+    },
     "C16": {
         "text": "Solver verdict over all inputs within the bounds: the varint kernels round-trip for every u64 and the decoder is "
-        "total on every byte string <= 11 bytes; the schedule parser returns (never panics) on every byte vector of length <= 3 "
-        "that hex decoding can produce. The genuine decoder panics found on the pinned tree were repaired (fix: commit) and the "
-        "harnesses that expose them stay in the check.",
+        "total on every byte string <= 11 bytes; the schedule parser returns (never panics) on every byte vector of length <= 2 "
+        "(quick) / 3 (thorough) that hex decoding can produce, and rejects what the hex layer rejects. The genuine decoder "
+        "panics found on the pinned tree were repaired (fix: 7283ba1) and the harnesses that expose them stay in the check.",
         "note": "Kani/CBMC model of the dev profile; `hex` crate and string front-end replaced by an environment stub returning "
         "arbitrary bytes; whole-schedule round trip with symbolic contents and byte vectors > 3 bytes are outside the bound "
         "(measured out of memory), as are symbolic strings.",
+        "technique": _K + "all u64 / all byte strings up to the bound",
+    },
+    "C17": {
+        "text": "Solver verdict over every sequence of 4 (quick) / 6 (thorough) executor-sleep / wake / finish operations on the real "
+        "Task: a wake that arrives after the latest poll keeps (or makes) the task runnable, a pending task that was not woken "
+        "sleeps, the wake flag is consumed exactly once. JoinHandle, abort semantics, block_on and the executor loop are not covered.",
+        "note": "only the no-lost-wake-up protocol at Task level (sleep_unless_woken / wake); result delivery clauses are outside.",
+        "technique": _K + "symbolic operation sequences against a wake-flag model",
+    },
+    "C18": {
+        "text": "Solver verdict, for the literal control skeletons listed in the evidence and all permit counts / initial permits / both "
+        "fairness modes: try_acquire succeeds exactly when the reference counter says so, release and close change "
+        "available_permits / the closed flag exactly as the counting model does. Waiter queues, fairness order, grants, "
+        "cancellation and wake-ups - the larger part of the property - are not covered.",
+        "note": "real BatchSemaphore on a real ExecutionState with two coroutine-less tasks; any skeleton containing an Acquire "
+        "future exhausts the solver's memory (measured), so only try_acquire / release / close paths are decided.",
+        "technique": _K + "concrete control skeleton, symbolic operands and mode",
+    },
+    "C20": {
+        "text": "Solver verdict for every u64 probe: every constructor / conversion / clone / set operator of the deterministic HashMap "
+        "and HashSet yields a collection whose hasher equals the fixed-key hasher (a constructor that falls back to "
+        "RandomState::new is caught because that function is stubbed to different keys). A genuine defect found this way "
+        "(set operators | & ^ - used randomly keyed hashers) was repaired (fix: 1d25076). The parking_lot, DashMap, rand and "
+        "lazy_static clauses are not covered.",
+        "note": "hasher equality on empty collections; identical iteration order across processes is argued from equal keys "
+        "(hashbrown is deterministic given keys and history), not run.",
+        "technique": _K + "all probe keys, every construction path",
     },
 }
 
-_pending = "no check is registered for this property yet (build in progress; see DESIGN.md for the plan and measured obstacles)"
-NOT_APPLICABLE = {pid: _pending for pid in [f"C{i:02d}" for i in range(1, 21)]}
+_ENGINE = (
+    "its code only runs inside a Shuttle execution (ExecutionState + task table + primitives). Measured with Kani 0.68 / CBMC 6.11: "
+    "symbolic execution is feasible after the hooks (Vec task table, no fn-pointer/dyn-drop paths), but CBMC's propositional "
+    "post-processing (array theory over the heap-allocated task table, Arc<Waiter> queues, Vec<*const Task>) exhausts 16-50 GB or "
+    "symbolic execution does not finish in 30 min even for one scheduling decision / three concrete semaphore operations "
+    "(DESIGN.md 2.1); no other solver back end is usable (z3/cvc5 abort under Kani, no bitwuzla)"
+)
+
+NOT_APPLICABLE = {
+    "C02": "needs every visible operation of every primitive executed inside an execution: " + _ENGINE
+    + ". The one K-pure piece (exit_current_truncates_execution) has a harness (kani/core/src/c03.rs, validated natively) that does "
+    "not finish either.",
+    "C03": "the verdict is computed by ExecutionState::schedule + run_to_completion: " + _ENGINE
+    + ". The harness (kani/core/src/c03.rs: one decision from every task table, oracle scheduler, spec predicate) exists, agrees with "
+    "the real code on 10^5..10^6 native random runs, and is not registered because no instance was decided (30 min timeout alone).",
+    "C04": "Mutex/RwLock/atomics operate through BatchSemaphore::acquire (Acquire futures) and ExecutionState: " + _ENGINE + ".",
+    "C06": "mpsc send/recv block through ExecutionState and wait queues of Arc-shared state: " + _ENGINE + ".",
+    "C07": "spawn/join/scope/thread-locals need coroutines, catch_unwind (Kani 0.68 ICE) and the execution loop: " + _ENGINE + ".",
+    "C09": "DfsScheduler is a K-pure target and the harness (kani/core/src/c09.rs: every depth-2 choice tree, validated natively on "
+    "20000 random trees) exists, but its symbolic-length `levels` vector exhausts 12 GB and 34 GB in CBMC's post-processing; "
+    "no instance was decided, so nothing is claimed.",
+    "C10": "the random schedulers call rand's rejection-sampling loops (unbounded: unwinding assertions fail) and 128-bit PCG "
+    "arithmetic on symbolic seeds (the RandomDataSource reseed harness c10_data_source_reseed did not finish in 15 min); "
+    "uniformity and eventual coverage are probabilistic statements, not solver questions.",
+    "C11": "PctScheduler keeps priorities in a HashMap seeded with 16 entries and samples with rand (shuffle, sample, gen_range: "
+    "unbounded rejection loops); hashbrown's SIMD group probing alone dominated every harness it was reachable from; the "
+    "detection-probability bound is a probabilistic statement.",
+    "C12": "failure reporting lives in the panic hook, catch_unwind/resume_unwind (Kani 0.68 internal compiler error on catch_unwind), "
+    "stderr and the file system. The persistence-suppression defect predicted in DESIGN.md was confirmed and repaired with an "
+    "ordinary two-run program against the real runtime (demos/c12demo, fix: commit), not with a solver, so no check is claimed.",
+    "C14": "isolation between executions is ExecutionState::cleanup + continuation pool + per-execution storage: coroutines and "
+    + _ENGINE + ".",
+    "C19": "the tokio replacements are layers over BatchSemaphore::acquire futures and ExecutionState: " + _ENGINE
+    + "; watch uses catch_unwind (Kani ICE).",
+}
